@@ -81,7 +81,9 @@ def api_names():
         hashes = dict(poseidon_hash=ph.poseidon_hash)
     except NotImplementedError:
         hashes = {}          # the selected backend has no registered Poseidon parameters (snarkjs, qaptools)
-    return dict(snark=rt.snark, **hashes, PackBool=pk.PackBool, PackIntMod=pk.PackIntMod, PackList=pk.PackList, PackRepeat=pk.PackRepeat,
+    def set_bitlength(n):
+        rt.bitlength = n
+    return dict(snark=rt.snark, set_bitlength=set_bitlength, **hashes, PackBool=pk.PackBool, PackIntMod=pk.PackIntMod, PackList=pk.PackList, PackRepeat=pk.PackRepeat,
                 PrivVal=rt.PrivVal, PubVal=rt.PubVal, ConstVal=rt.ConstVal, LinComb=rt.LinComb,
                 guarded=rt.guarded, PrivValBool=bo.PrivValBool, PubValBool=bo.PubValBool, LinCombBool=bo.LinCombBool,
                 PrivValFxp=fx.PrivValFxp, PubValFxp=fx.PubValFxp, LinCombFxp=fx.LinCombFxp,
@@ -242,19 +244,30 @@ SNARK_T = [
     ("snark_cmp", None, "snark(lambda u, w: u < w)({F}, {J})"),
 ]
 
+TOP_T = [
+    # statements generated at the top level only (they rebind an existing name / change a global setting)
+    ("iadd", None, "{i} += {i}"), ("isub_c", None, "{i} -= {K}"), ("imul", None, "{i} *= {i}"), ("imul_c", None, "{i} *= {k}"),
+    ("ifloordiv", None, "{i} //= {k}"), ("imod", None, "{i} %= {k}"), ("ilshift", None, "{i} <<= {s}"), ("irshift", None, "{i} >>= {s}"),
+    ("iand", None, "{i} &= {i}"), ("ior_c", None, "{i} |= {k}"), ("ixor", None, "{i} ^= {i}"), ("ipow", None, "{i} **= {e}"),
+    ("band_i", None, "{b} &= {b}"), ("bor_i", None, "{b} |= {B}"), ("bxor_i", None, "{b} ^= {b}"),
+    ("fadd_i", None, "{f} += {f}"), ("fmul_i", None, "{f} *= {k}"), ("fsub_i", None, "{f} -= {i}"), ("fdiv_i", None, "{f} /= {k}"),
+    ("set_bitlength", None, "set_bitlength({L})"),
+]
+
 HASH_T = [
     ("poseidon2", "i", "poseidon_hash([{i}, {i}])[0]"), ("poseidon5", "i", "poseidon_hash([{i}, {i}, {b}, {i}, {i}])[1] * 0 + {i}"),
     ("poseidon_chain", "i", "poseidon_hash(poseidon_hash([{i}]))[3]"), ("poseidon_eq", "b", "poseidon_hash([{i}])[0] == poseidon_hash([{i}])[0]"),
 ]
 
-TEMPLATE_SETS = dict(int=INT_T, bool=BOOL_T, fxp=FXP_T, assert_=ASSERT_T, array=ARRAY_T, hash=HASH_T, snark=SNARK_T)
+TEMPLATE_SETS = dict(int=INT_T, bool=BOOL_T, fxp=FXP_T, assert_=ASSERT_T, array=ARRAY_T, hash=HASH_T, snark=SNARK_T, top=TOP_T)
+TOP_ONLY = {t[0] for t in TOP_T}
 ALL_TEMPLATES = {t[0]: t for ts in TEMPLATE_SETS.values() for t in ts}
 
 
 class Gen:
     def __init__(self, rnd, bl=None, res=None, features=("int", "bool", "assert_", "guard")):
         self.rnd = rnd
-        self.bl = bl if bl is not None else rnd.choice([4, 6, 8, 12, 16, 24, 32])
+        self.bl = bl if bl is not None else rnd.choice([4, 6, 8, 12, 16, 24, 32] * 4 + [2, 3, 60, 128, 250])
         self.res = res if res is not None else rnd.choice([0, 1, 2, 4, 8])
         if self.res > self.bl - 2:
             self.res = max(0, self.bl - 3)
@@ -303,6 +316,8 @@ class Gen:
             return repr(q / (1 << self.res))
         if slot == "z":
             return str(r.randint(0, 1))
+        if slot == "L":
+            return str(r.choice([self.bl + 4, self.bl + 8, 2 * self.bl, max(3, self.bl - 2)]))
         if slot in ("J", "F"):
             want = ("PrivVal", "PubVal") if slot == "J" else ("PrivValFxp", "PubValFxp")
             ks = [k for k, (c, _) in enumerate(self.inputs_now) if c in want]
@@ -400,6 +415,10 @@ class Gen:
                     made += 1
                 continue
             tid, rty, tmpl = rnd.choice(self.templates)
+            if tid in TOP_ONLY and depth > 0:
+                continue
+            if tid == "set_bitlength" and rnd.random() < 0.7:
+                continue
             expr = self._fill(tmpl, pools)
             if expr is None:
                 continue
